@@ -59,11 +59,26 @@ fn push_block(sh: &mut Sheet, id: u32) {
     sh.plain("}", "rule");
 }
 
+/// spellings of `:host` (the same selector for a tokenizer: comments are no tokens, escapes are resolved)
+pub const HOST_SPELLINGS: &[&str] = &[":host", ":/*c*/host", ":h\\6f st", ":\\68ost"];
+thread_local! {
+    /// how the `:host` selectors of the sheet being built are spelled (index into HOST_SPELLINGS)
+    pub static HOST_SPELLING: std::cell::Cell<usize> = std::cell::Cell::new(0);
+}
+
 fn push_selector(sh: &mut Sheet, leaf: Leaf) {
     let c = "selector";
     let host = |sh: &mut Sheet| {
         sh.plain(":", c);
-        sh.plain("host", c);
+        match HOST_SPELLING.with(|x| x.get()) {
+            0 => sh.plain("host", c),
+            1 => {
+                sh.push("/*c*/", Role::Comment, c);
+                sh.plain("host", c);
+            }
+            2 => sh.plain("h\\6f st", c),
+            _ => sh.plain("\\68ost", c),
+        }
     };
     match leaf {
         Leaf::Ordinary => {
@@ -337,19 +352,32 @@ pub fn explore(thorough: bool, result_path: &str) {
     let lens3: &[u32] = if thorough { &[4] } else { &[3] };
     let n3 = lists(0, lens3, LEAVES.len() as u64) * 2;
     let no = opts.len() as u64;
-    let total = n1 * no + n2 * 3 + n3 * no;
+    // space 4: the other spellings of `:host`: every pair of leaves (bare and inside one wrapper), every option set
+    let lens4: &[u32] = &[2];
+    let n4 = lists(0, lens4, LEAVES.len() as u64) * 2 * (HOST_SPELLINGS.len() as u64 - 1);
+    let total = n1 * no + n2 * 3 + n3 * no + n4 * no;
     let rep = par_run(total, threads(), |i, rep| {
+        let mut spelling = 0usize;
         let (space, nodes, o) = if i < n1 * no {
             ("all-leaves:depth<=1:len<=2", unrank_list(i / no, 1, lens1, LEAVES.len() as u64), &opts[(i % no) as usize])
         } else if i < n1 * no + n2 * 3 {
             let k = i - n1 * no;
             ("3-leaves:deep", unrank_list(k / 3, d2, lens2, 3), &deep_opts[(k % 3) as usize])
-        } else {
+        } else if i < n1 * no + n2 * 3 + n3 * no {
             let k = i - n1 * no - n2 * 3;
             let j = k / no;
             let flat = unrank_list(j / 2, 0, lens3, LEAVES.len() as u64);
             ("flat-lists", if j % 2 == 0 { flat } else { vec![Node::Wrap(0, flat)] }, &opts[(k % no) as usize])
+        } else {
+            let k = i - n1 * no - n2 * 3 - n3 * no;
+            let j = k / no;
+            let ns = HOST_SPELLINGS.len() as u64 - 1;
+            spelling = 1 + (j % ns) as usize;
+            let j = j / ns;
+            let flat = unrank_list(j / 2, 0, lens4, LEAVES.len() as u64);
+            ("host-spellings", if j % 2 == 0 { flat } else { vec![Node::Wrap(0, flat)] }, &opts[(k % no) as usize])
         };
+        HOST_SPELLING.with(|x| x.set(spelling));
         rep.states += 1;
         rep.transitions += 1;
         rep.evaluations += 1;
@@ -369,7 +397,7 @@ pub fn explore(thorough: bool, result_path: &str) {
                     rep.violation(Violation {
                         fingerprint: format!("C17|{}|convert={}", kind, o.convert_host),
                         what: format!("{} for rule tree [{}] options {}: {}", kind, describe(&nodes), o.to_json(), detail.chars().take(500).collect::<String>()),
-                        replay: json!({"engine": "c17", "tree": tree_json(&nodes), "options": o.to_json(), "input": build(&nodes, o).input.text()}),
+                        replay: json!({"engine": "c17", "tree": tree_json(&nodes), "options": o.to_json(), "host_spelling": spelling, "input": build(&nodes, o).input.text()}),
                     });
                 }
             }
@@ -377,8 +405,8 @@ pub fn explore(thorough: bool, result_path: &str) {
     });
     let res = rep.to_result(
         "C17",
-        "every rule tree of the stated shape (leaf kinds: ordinary, :host, @font-face{…}, :host(.a), :host .a, .a :host, :host,.b, :host:hover; wrappers @media/@supports/@layer) under every option set {convert_host} x {class_prefix} x {host_is} x {sign}; non-trivial = conversion on and at least one :host rule; distinct = distinct index",
-        json!({"depth_all_leaves": 1, "depth_three_leaves": d2, "list_lengths_per_level_deep": lens2, "flat_list_length": lens3[0], "option_sets": opts.len(), "option_sets_deep": 3}),
+        "every rule tree of the stated shape (leaf kinds: ordinary, :host, @font-face{…}, :host(.a), :host .a, .a :host, :host,.b, :host:hover; wrappers @media/@supports/@layer; `:host` also spelled with a comment after the colon and with escapes) under every option set {convert_host} x {class_prefix} x {host_is} x {sign}; non-trivial = conversion on and at least one :host rule; distinct = distinct index",
+        json!({"depth_all_leaves": 1, "depth_three_leaves": d2, "list_lengths_per_level_deep": lens2, "flat_list_length": lens3[0], "option_sets": opts.len(), "option_sets_deep": 3, "host_spellings": HOST_SPELLINGS}),
         true,
         &["cssparser tokenizer trusted on both sides", "expected outputs are virtual model sheets run through the same token-level reference rewrite as C08"],
         Map::new(),
@@ -417,6 +445,7 @@ pub fn replay(v: &Value) -> Value {
     silence_panics();
     let nodes = tree_from(&v["tree"]);
     let o = Opts::from_json(&v["options"]);
+    HOST_SPELLING.with(|x| x.set(v["host_spelling"].as_u64().unwrap_or(0) as usize));
     let a = check_tree(&nodes, &o);
     let b = check_tree(&nodes, &o);
     let fmt = |r: &Result<Vec<(String, String)>, String>| match r {
